@@ -614,9 +614,13 @@ fn execute_write_in_txn(
     }
     let prepared = prepare(cypher).map_err(|e| ApiError::from_query_message(&e.to_string()))?;
     let snapshot = db.snapshot();
+    #[cfg(nervusdb_verif)]
+    core::verif::point("capi.txn.snapshot");
     let (_rows, write_count) = prepared
         .execute_mixed(&snapshot, txn, params)
         .map_err(|e| ApiError::from_query_message(&e.to_string()))?;
+    #[cfg(nervusdb_verif)]
+    core::verif::point("capi.txn.staged");
     Ok(write_count)
 }
 
@@ -999,7 +1003,11 @@ pub extern "C" fn ndb_begin_write(db: *mut ndb_db_t, out_txn: *mut *mut ndb_txn_
         }
         let handle = unsafe { db_handle_mut(db)? };
         let db_ref = db_ref_from_handle_mut(handle)?;
+        #[cfg(nervusdb_verif)]
+        core::verif::point("capi.txn.begin");
         let txn = db_ref.begin_write();
+        #[cfg(nervusdb_verif)]
+        core::verif::point("capi.txn.locked");
         let txn_static: core::WriteTxn<'static> = unsafe {
             // SAFETY: lifecycle is enforced by retaining parent DB handle and active-txn gate on close.
             std::mem::transmute::<core::WriteTxn<'_>, core::WriteTxn<'static>>(txn)
@@ -1062,6 +1070,8 @@ pub extern "C" fn ndb_txn_commit(txn: *mut ndb_txn_t) -> c_int {
             .take()
             .ok_or_else(|| ApiError::execution("transaction is not active"))?;
         tx.commit().map_err(ApiError::from_core)?;
+        #[cfg(nervusdb_verif)]
+        core::verif::point("capi.txn.done");
         decrement_active_txn_count(db_ptr);
         Ok(())
     })();
@@ -1083,6 +1093,8 @@ pub extern "C" fn ndb_txn_rollback(txn: *mut ndb_txn_t) -> c_int {
         };
         let db_ptr = boxed.db;
         let _ = boxed.txn.take();
+        #[cfg(nervusdb_verif)]
+        core::verif::point("capi.txn.rolledback");
         decrement_active_txn_count(db_ptr);
         Ok(())
     })();
